@@ -425,6 +425,20 @@ func c13DemuxGen(g *hx.Gen) {
 			g.Case(hx.H(fixed), hx.HS(se), hx.H(c13Frame(r, 1, fixed, []byte(se), style)))
 		}
 	}
+	// long runs of consecutive stderr records (a script logging one notice per record) before any
+	// stdout, inside a header line, at a header line end and in the body; a bufio.Reader in front of
+	// the stream gives up after 100 reads without progress.  Also runs of empty stdout records, below
+	// that limit (each of them does cost the reader one empty read).
+	for where := 0; where < 4; where++ {
+		for _, k := range c13BurstSizes {
+			so, se, raw := c13Burst(where, k, 7)
+			g.Case(hx.H(so), hx.H(se), hx.H(raw))
+		}
+		for _, k := range []int{1, 2, 40} {
+			so, se, raw := c13Burst(where, k, 6)
+			g.Case(hx.H(so), hx.H(se), hx.H(raw))
+		}
+	}
 	n := 700
 	if g.Thorough() {
 		n = 20000
